@@ -6,6 +6,7 @@ import Swat4.Spec.ServerListExpected
 import Swat4.Gen.Facts
 import Swat4.Lemmas.BrowserEndToEnd
 import Swat4.Properties.C03
+import Swat4.Lemmas.Decimal
 /-!
 # C01 — Server-list replies decode to exactly the selected servers
 
@@ -724,3 +725,67 @@ example : (listStored List.reverse registry 1000 100 Facts.statusMaster (Filter.
     ["1.1.1.3:10480", "1.1.1.2:10480"] := by decide
 
 end Swat4.C01.E2EExample
+
+/-! ## "integers in decimal": what `Browsing.decimal` writes
+
+The reference renderer `SBList.renderVal` calls the model's `Browsing.decimal`, so on its own the
+clause "integers are rendered in decimal" would compare the model with itself.  The theorems below
+characterise the bytes without mentioning `decimal` on the right-hand side. -/
+namespace Swat4.C01
+open Swat4 Swat4.Browsing Swat4.SBList
+
+/-- "integers in decimal" (C01), shape and value: for every integer `i` the rendering is an optional
+`-` (present exactly when `i < 0`) followed by a non-empty run `ds` of ASCII digits `0`–`9` whose
+positional value is `|i|` and which starts with `0` only when it is the single digit `0`.  (So there is
+no `+`, no leading zero, no `-0`, no other byte; these conditions determine the string.) -/
+theorem decimal_spec (i : Int) :
+    ∃ ds : Bytes, decimal i = (if i < 0 then [0x2d] else []) ++ ds ∧ ds ≠ [] ∧
+      (∀ d ∈ ds, (0x30 : UInt8) ≤ d ∧ d ≤ 0x39) ∧
+      ds.foldl (fun a d => a * 10 + (d.toNat - 48)) 0 = i.natAbs ∧
+      (ds.head? = some 0x30 → ds = [0x30]) := by
+  rw [Decimal.decimal_eq_renderInt]
+  unfold FilterSpec.renderInt
+  split
+  · have ⟨h1, h2, h3, h4⟩ := Decimal.natDigits_spec i.natAbs
+    refine ⟨_, rfl, h1, h2, h3, ?_⟩
+    intro hh
+    rw [h4 hh]; exact Decimal.natDigits_zero
+  · have ⟨h1, h2, h3, h4⟩ := Decimal.natDigits_spec i.toNat
+    refine ⟨_, by simp, h1, h2, ?_, ?_⟩
+    · rw [show (FilterSpec.natDigits i.toNat).foldl (fun a d => a * 10 + (d.toNat - 48)) 0 = i.toNat from h3]; omega
+    · intro hh
+      rw [h4 hh]; exact Decimal.natDigits_zero
+
+/-- "integers in decimal" (C01), read-back: the independently written model of `strconv.Atoi`
+(`Filter.atoi`, C03) parses the rendering of every int64 back to the same integer. -/
+theorem decimal_atoi (i : Int) (h1 : -(2 : Int) ^ 63 ≤ i) (h2 : i < (2 : Int) ^ 63) :
+    Filter.atoi (decimal i) = some i := by
+  rw [Decimal.decimal_eq_renderInt]
+  exact Filter.atoi_renderInt i h1 h2
+
+/-- "integers in decimal" (C01): the rendering never contains `+` (nor any byte other than `-` and digits) -/
+theorem decimal_bytes (i : Int) : ∀ b ∈ decimal i, b = 0x2d ∨ ((0x30 : UInt8) ≤ b ∧ b ≤ 0x39) := by
+  have ⟨ds, e, _, hd, _, _⟩ := decimal_spec i
+  intro b hb
+  rw [e, List.mem_append] at hb
+  cases hb with
+  | inl hb => left; split at hb <;> simp_all
+  | inr hb => right; exact hd b hb
+
+theorem decimal_no_plus (i : Int) : (0x2b : UInt8) ∉ decimal i := by
+  intro h
+  cases decimal_bytes i _ h with
+  | inl h => exact absurd h (by decide)
+  | inr h => exact absurd h.1 (by decide)
+
+/-- the rendering is the filter spec's canonical numeral `FilterSpec.renderInt` (explicit `/10`, `%10`
+recursion, written without `Nat.toDigits`) -/
+theorem decimal_eq_renderInt (i : Int) : decimal i = FilterSpec.renderInt i := Decimal.decimal_eq_renderInt i
+
+/-- the hypotheses of `decimal_atoi` hold at both ends of int64, and `decimal_spec` on concrete numbers -/
+example : Filter.atoi (decimal (-(2 : Int) ^ 63)) = some (-(2 : Int) ^ 63) ∧
+    Filter.atoi (decimal ((2 : Int) ^ 63 - 1)) = some ((2 : Int) ^ 63 - 1) :=
+  ⟨decimal_atoi _ (by decide) (by decide), decimal_atoi _ (by decide) (by decide)⟩
+example : decimal (-120) = Bytes.ofAscii "-120" ∧ decimal 0 = Bytes.ofAscii "0" ∧ decimal 9481 = Bytes.ofAscii "9481" := by decide
+
+end Swat4.C01
